@@ -338,3 +338,10 @@ def wildcard_admits(check, uri):
 
 def some(x):
     return x
+
+
+def call_kwarg(name, key):
+    raise NotImplementedError("call_kwarg() is a symbolic-only builtin")
+
+
+SOAP_HTTP_TRANSPORT = "http://schemas.xmlsoap.org/soap/http"  # WSDL 1.1 SOAP binding, section 3.3
